@@ -119,6 +119,11 @@ def build_cases(thorough, per_family=None):
         for i in range(per_family):
             text, names = programs.program((env.seed(), "G2", name, i), n_idioms=1, only=name)
             cases.append({"id": f"G2:{name}:{i}", "text": text, "idioms": names, "options": {}})
+    # some rules only look at module level: every family also unwrapped
+    for name in programs.IDIOMS:
+        for i in range(30 if thorough else 4):
+            text, names = programs.program((env.seed(), "G2m", name, i), n_idioms=1, only=name, wrap="module")
+            cases.append({"id": f"G2m:{name}:{i}", "text": text, "idioms": names, "options": {}})
     for i in range(1500 if thorough else 110):
         text, names = programs.program((env.seed(), "G1", i))
         cases.append({"id": f"G1:{i}", "text": text, "idioms": names, "options": [{}, {"safe": True}, {"keep_imports": True}][i % 3]})
